@@ -136,6 +136,27 @@ PROPS["C07"] = {
     "level_note": LEVEL_NOTE_GBN,
 }
 
+NOISE_COMPONENTS = {
+    "mailbox: noise.go, noise_patterns.go, conndata.go, crypto.go, grpc_noise_conn.go, tcp_noise_conn.go (NoiseConn)": "real code, instrumented copy of the working tree",
+    "btcec, lnd keychain ECDH, chacha20poly1305, hkdf, scrypt": "real (scrypt at the repo's rpctest cost parameter; a sample of runs at the production value)",
+    "byte stream under Noise": "stub: in-memory duplex with an adversary stage on write segments, read fragmentation, partial writes with timeout errors, read deadlines on the virtual clock",
+    "ephemeral keys / static keys / passphrases": "drawn from the run seed through the package's ephemeralGen seam, so wire bytes replay",
+    "gRPC/HTTP2 above the net.Conn, TCP listener, Dial": "not executed",
+}
+LEVEL_NOTE_NOISE = "Trusts the Go runtime, testing/synctest, the instrumenter's rewrite, and the cryptographic libraries (btcec, x/crypto); the transport below Noise is a harness stub; white-box probes read the Machine's cipher states and version."
+
+PROPS["C03"] = {
+    "pkgs": ["mailbox"],
+    "level": "fault_enumeration",
+    "quick_budget": 60, "thorough_budget": 1200,
+    "rule": "Enumerated: an XX handshake for each of the 112 positions at which the initiator's (or responder's) passphrase differs in exactly one bit; each KK key-mismatch shape x three auth payload sizes. Sampled: random equal/unequal passphrases (incl. 1-3 bit differences), correct and wrong static keys, all constructible (min,max) version ranges per side, auth payload sizes {0,1,498,4 KiB,1 MiB}, 1 in 40 runs at production scrypt cost, both start orders. Oracle on mismatch: the responder wrote zero bytes, both parties return errors (the initiator by its read deadline), no cipher states, no callbacks, nothing stored, no 16-byte window of the auth payload on the wire." + SIG_RULE,
+    "assumptions": ["'completes only if' is read as stated: matching handshakes that do not complete (incompatible version ranges, v0 payload too large) are counted, not flagged"],
+    "components": NOISE_COMPONENTS,
+    "expected_probes": ["c03.mismatch-rejected", "c03.match-completed", "c03.production-scrypt"],
+    "level_text": "Fault enumeration over the secret-mismatch space that can be enumerated (every single-bit passphrase difference, every key-mismatch shape) plus seeded sampling of the rest; each case is a real two-party handshake under the simulator.",
+    "level_note": LEVEL_NOTE_NOISE,
+}
+
 # Properties that are pure functions of their input: no schedule, clock, fault
 # or interleaving enters them, so deterministic simulation has nothing to decide.
 NOT_APPLICABLE = {
